@@ -64,8 +64,8 @@ def make_corner_point_setter_2d(
         elif periodic_y:
             # exploit periodicity along y-direction to use known boundary points
             arr[0, 0] = arr[0, -2]
-            arr[-1, 0] = arr[-1, 1]
-            arr[0, -1] = arr[0, -2]
+            arr[-1, 0] = arr[-1, -2]
+            arr[0, -1] = arr[0, 1]
             arr[-1, -1] = arr[-1, 1]
 
         else:
